@@ -472,8 +472,7 @@ def cases(tier, rng):
                           "scool": k % 7 == 0, "longbin": k % 5 == 1}
     for k in range(30 if thorough else 6):
         yield "cli_load", {"seed": rng.randrange(10 ** 9), "n": rng.randint(2, 6), "fmt": "coo" if k % 2 else "pairs"}
-    if thorough:
-        yield "bigindex", {"n": 1600}
+    yield "bigindex", {"n": 1600 if thorough else 1450}     # 1 051 975 pixels already cross the literal 10^6 block (1.5 s)
 
 
 def shrink(name, case):
